@@ -327,6 +327,11 @@ func scenariosOf(pr pairT, thorough bool) []scenT {
 			out = append(out, scenT{Pair: pr, Peer: "aborted-block-sync-then-failed-fast-sync"})
 		}
 	}
+	if pr.B-pr.A-1 > 2*pr.n() {
+		// block sync downloads from the best peer, not from the peer whose block started the sync: the best peer serves a
+		// statically invalid block, the (honest) peer that offered its tip must not pay for it
+		out = append(out, scenT{Pair: pr, Peer: "faulty-best-beside-honest-offering", At: 1}, scenT{Pair: pr, Peer: "faulty-best-beside-honest-offering", At: 2})
+	}
 	if pr.A >= 2 && pr.A <= 2*pr.n()-1 && pr.B-pr.A <= 2 {
 		// histories of two failed fast syncs on the same node, the second forking higher than the first
 		out = append(out, scenT{Pair: pr, Peer: "two-failed-fast-syncs"})
@@ -621,6 +626,11 @@ func runScenario(r *vlib.Run, fx *pairFixture, sc scenT, report func(key, what s
 		cx := newClient(a.Cfg.ChainID, "peer-tall", spx.handlers())
 		peers = append(peers, peerT{conn: cx, close: func() { cx.Stop() }, sp: spx})
 		addScripted("peer-best", "", 0, tipH)
+	case sc.Peer == "faulty-best-beside-honest-offering":
+		// the taller peer (tip tipH) corrupts the transaction root of its At-th block after the common prefix; the honest peer
+		// is one block shorter and offers its own tip
+		addScripted("peer-faulty-best", "bad-transaction-root", pr.P+sc.At, tipH)
+		addScripted("peer-honest-offering", "", 0, tipH-1)
 	case sc.Peers >= 2:
 		stale := tipH - 2
 		if stale < pr.P {
@@ -653,10 +663,24 @@ func runScenario(r *vlib.Run, fx *pairFixture, sc scenT, report func(key, what s
 	offering := peers[len(peers)-1]
 	hp := offering.conn.VerifHost()
 	offered := node.CloneBlock(fx.bChain[tipH])
+	if sc.Peer == "faulty-best-beside-honest-offering" {
+		offered = node.CloneBlock(fx.bChain[tipH-1])
+	}
 
 	errSync := a.Exec.VerifProcess(offered, string(hp.ID()))
 	r.Add("transitions", 1)
 	r.Add("syncs", 1)
+	if sc.Peer == "faulty-best-beside-honest-offering" {
+		// all loopback peers share one IP address, so the gater's ban list cannot tell them apart: a ban closes the
+		// connection of the banned peer (and only that one), which is what is observed
+		faulty := peers[0]
+		waitFor(func() bool { return !connected(ha, faulty.conn.VerifHost().ID()) || !connected(ha, hp.ID()) })
+		fellOnFaulty := !connected(ha, faulty.conn.VerifHost().ID())
+		r.Add("faulty_best_scenarios", 1)
+		if faulty.sp.badOnce != nil && !connected(ha, hp.ID()) {
+			report("honest-peer-banned:"+sc.Peer, fmt.Sprintf("block sync downloaded a statically invalid block from the best peer and disconnected the honest peer whose block had started the sync (err=%v; the faulty peer was disconnected: %v)", errSync, fellOnFaulty), sc)
+		}
+	}
 
 	tip := a.Tip().Header
 	diffH := tipH - (pr.P + pr.A)
